@@ -179,6 +179,7 @@ pub struct Sched {
     inner: Mutex<Inner>,
 }
 
+static CURRENT: Mutex<Option<Arc<Sched>>> = Mutex::new(None);
 thread_local!(static TID: std::cell::Cell<usize> = const { std::cell::Cell::new(usize::MAX) });
 
 fn fnv(h: &mut u64, v: u64) {
@@ -409,6 +410,7 @@ impl Sched {
     /// Installs this scheduler and makes the calling thread simulation thread 0.
     pub fn enter(self: &Arc<Self>) {
         vh::install(Some(self.clone() as Arc<dyn Hooks>));
+        *CURRENT.lock() = Some(self.clone());
         TID.with(|t| t.set(0));
         vh::set_in_sim(true);
     }
@@ -436,6 +438,7 @@ impl Sched {
         vh::set_in_sim(false);
         TID.with(|t| t.set(usize::MAX));
         vh::install(None);
+        *CURRENT.lock() = None;
         let mut g = self.inner.lock();
         g.stats.final_clock_ns = g.clock;
         g.stats.threads = g.threads.len();
@@ -505,6 +508,19 @@ impl Sched {
         Some(id)
     }
 
+    /// The scheduler of the running simulation, if any.
+    pub fn current() -> Option<Arc<Sched>> {
+        CURRENT.lock().clone()
+    }
+    /// "Faults stop": from now on fair round-robin with constant clock increments.
+    pub fn calm_now(&self) {
+        let mut g = self.inner.lock();
+        if !g.calm {
+            g.calm = true;
+            let step = g.stats.steps;
+            g.stats.calm_started_at_step = Some(step);
+        }
+    }
     pub fn current_tid() -> Option<usize> {
         let t = TID.with(|t| t.get());
         if t == usize::MAX {
